@@ -559,7 +559,7 @@ def build_controls(prog: Program) -> list[tuple[str, str, str, str, str]]:
     for c in calls_in(sy, lambda c: isinstance(c.func, ast.Attribute) and c.func.attr == "fetch_next")[:1]:
         txt, base = seg(sy.module, c), seg(sy.module, c.func.value)  # type: ignore[union-attr]
         add("synchronisation reads the raw stream", EVAL, stmt_patch(sy, c, lambda t: t.replace(txt, f"{base}.stream.receive()", 1)), "C13.READ")
-    if len(out) < 7:
+    if len(out) < 6:
         raise AnalysisError(f"C13: only {len(out)} of 8 seeded controls could be derived from the source ({[o[0] for o in out]})")
     return out
 
